@@ -1,6 +1,5 @@
 package vsim
 
-//simgen:nomaps
 
 import (
 	"fmt"
